@@ -63,6 +63,7 @@ def ext_wait_for_job(ex):
     ex.path.assume(z3.And(fun.e != ex.path.read_field(me, 'wait_for_job').e, z3.Or(syn.isnone, fun.e != syn.val.e)))
     for f in FLAGS:
         setb(ex, f, False)
+    gset(ex, 'n_put_failures', mk_int(0))
     setb(ex, 'have_job')
     inc(ex, 'n_jobs')
     gset(ex, 'cur_job', msg.items[1].items[0])
@@ -126,14 +127,21 @@ def ext_put(ex, args, kw):
         prove(ex, 'protocol.result_only_for_an_accepted_executed_job', z3.And(gb(ex, 'acked'), gb(ex, 'ran')))
         prove(ex, 'protocol.result_names_the_job', ex.eq(body.items[0], gget(ex, 'cur_job')))
         prove(ex, 'protocol.exactly_one_result_per_job', z3.Not(gb(ex, 'ready_sent')))
+        res = body.items[2]
+        # C12: once the result could not be serialised, what is sent instead is the encoding-error record, as a failure
+        prove(ex, 'protocol.unserialisable_result_is_reported_as_an_encoding_error_on_that_job',
+              z3.Implies(gget(ex, 'n_put_failures').e > 0,
+                         z3.And(z3.Not(res.items[0].e), res.items[1].e == z3.Const('encoding_error_record', Val))
+                         if isinstance(res, STup) and isinstance(res.items[1], SV) and res.items[1].shape is ValS
+                         else z3.BoolVal(False)))
         k = ex.path.choose(3)
         if k == 1:
+            inc(ex, 'n_put_failures')
             raise_exc(ex, 'AnyException')          # the result cannot be serialised
         if k == 2:
             term_signal(ex)
         setb(ex, 'ready_sent')
         inc(ex, 'n_ready')
-        res = body.items[2]
         if isinstance(res, STup) and isinstance(res.items[1], SV) and res.items[1].shape is ValS:
             if ex.path.decide(res.items[1].e == z3.Const('encoding_error_record', Val)):
                 inc(ex, 'n_encoding_errors')
@@ -168,7 +176,7 @@ def ext_ensure_consumed(ex, args, kw):
 def declare_worker(w):
     flds = {f: BoolS for f in FLAGS}
     flds.update({c: IntS for c in COUNTS})
-    flds.update({'term': BoolS, 'cur_job': IntS, 'cur_i': opt(IntS), 'n_ensure': IntS, 'now': RealS})
+    flds.update({'n_put_failures': IntS, 'term': BoolS, 'cur_job': IntS, 'cur_i': opt(IntS), 'n_ensure': IntS, 'now': RealS})
     if 'g' in w.classes:
         w.classes['g'].fields.update(flds)
     else:
@@ -256,7 +264,10 @@ def workloop_contract(prop):
         raises={
             'SystemExit': {'results_consumed_before_exit': 'g.n_ensure == 1',
                            'every_executed_job_answered_unless_interrupted': 'g.n_ready == g.n_ran or g.term'},
-            'AnyException': {'put_failed_twice': 'g.n_ensure == 1'},
+            # the only exception that may kill the worker from inside the loop: the encoding-error record itself could
+            # not be sent either (C12: an unserialisable result alone neither kills the worker nor loses the job)
+            'AnyException': {'results_consumed_before_exit': 'g.n_ensure == 1',
+                             'only_when_the_error_record_could_not_be_sent_either': 'g.n_put_failures == 2'},
             'AssertionError': {'malformed_message': 'g.n_ensure == 1'},
         },
     )
